@@ -93,14 +93,18 @@ CHECKS.update({
              "cross-checked on witness replays (GLPK problem read back through optlang); 'glpk_exact' and solver switching not "
              "exercised symbolically. " + NOTE_COMMON, ref="4/C01"),
     "C02": dict(
-        text="Same histories as C01; after every step the cross-reference invariants are decided: reaction<->metabolite/gene back "
-             "references, every listed object is the model's own and found under its id, reaction.genes = genes of its rule, ids unique, "
-             "DictList indices exact, groups only reference members of the model, and no stoichiometric coefficient can be zero (proved "
-             "for symbolic coefficients).",
-        note="The executable reference of the documented per-operation semantics (DESIGN table under C02) is NOT built: this check "
-             "claims the invariant half of the property only; 'does exactly what it documents' is covered indirectly through C01/C03/"
-             "C12 obligations on the same histories. Back references from reactions the user holds detached are tolerated (objects are "
-             "shared by reference in cobra). " + NOTE_COMMON, ref="4/C02"),
+        text="Same histories as C01; after every step (a) the state is compared with an executable reference of the documented "
+             "semantics (vlib/refmodel.py, written from the docstrings: bounds setters, knock_out, add/subtract metabolites with "
+             "combine/replace and zero-coefficient removal, *=, +=, -=, rules, add/remove reactions incl. remove_orphans, add/remove "
+             "metabolites incl. destructive, remove_genes with rule simplification, rename of genes/reactions/metabolites; a raising "
+             "call changes nothing) - symbolic coefficients and bounds proved equal, rules compared as Boolean functions - and (b) "
+             "the cross-reference invariants are decided (back references, objects are the model's own, reaction.genes = genes of "
+             "its rule, unique ids, exact indices, groups reference members of the model, no coefficient can be zero).",
+        note="Operations without a reference clause (objective-only changes are identity; add_boundary, groups, medium, gene "
+             "knock-outs, build_reaction_from_string, merge, helpers) switch the reference comparison off for the rest of that "
+             "history; invariants still apply. Where the documentation is silent nothing is asserted (state after a raising "
+             "multi-key call, fate of ignored objects). Back references from reactions the user holds detached are tolerated. "
+             + NOTE_COMMON, ref="4/C02"),
     "C03": dict(
         text="Bracketed histories: enter, up to k operations of the documented-as-reversible alphabet (26 operations x argument shapes, "
              "membership cross-checked by an ast/docstring scan), nested enter..exit, termination normally or by the exception of a "
